@@ -587,7 +587,15 @@ def all_simple_ids(N, s, t, limit=2000):
 
 def run(ctx):
     rng = ctx.rng
+    # second tie: re-translate the decision code of /repo (harness/pygen_c11.py); the equivalence lemmas of
+    # Proofs/RouteGen.v / Proofs/DisjointGen.v are then re-checked by check_props against what the code says now
+    from . import pygen_c11
+    gen_ok, gen_msg = pygen_c11.regenerate(('disjoint',))
     ctx.proof = common.check_props('C12')
+    if not gen_ok:
+        ctx.proof['ok'] = False
+        ctx.proof['log'] = 'harness/pygen_c11.py: ' + gen_msg + '\n' + ctx.proof.get('log', '')
+        ctx.proof['failed_file'] = 'theories/Gen (translation of /repo source failed: ' + gen_msg[:300] + ')'
     ctx.rule = ('random ROADM meshes (3-7 sites) x batches of 2-6 requests (twins that get aggregated, ROADM / booster / '
                 'line-element include lists, STRICT/LOOSE) x 1-4 synchronisation groups (pairs, triples, overlapping, '
                 'duplicated) through deduplicate_disjunctions, requests_aggregation, compute_path_dsjctn; judged in Coq '
@@ -636,6 +644,8 @@ def run(ctx):
                     ctx.corr_break('corr:Disjoint.short_list', 'a list passed to isdisjoint is not the model short list of '
                                    'any of the first candidate paths', case, impl=p, model=sorted(model_shorts)[:5])
     ctx.assumptions += [
+        'translator tie: harness/pygen_c11.py (fail-closed template matching + translation of the tests, constants and '
+        'branches listed in its docstring into model terms, regenerated from the source on every run)',
         'links are unordered ROADM pairs: the generated meshes have no parallel lines between two sites (gnpy documents '
         'find_reversed_path / reversed_oms as inexact there)',
         'completeness is a violation only for batches made of one pair group (what the property claims); DisjunctionError '
